@@ -350,6 +350,24 @@ Definition err_matches (o : obs) (k : core) (aborted : bool) : bool :=
   | _, _ => false
   end.
 
+(** callbacks that processing node [c] triggers under flags [fl] *)
+Definition calls_for (fl : flags) (g : graph) (cf : cfg) (root c : cid) : list hcall :=
+  let arg := if f_parallel_root_arg fl && c_parallel cf then root else c in
+  match n_fail (lookup g c) with
+  | None => []
+  | Some e =>
+      match install (f_handler_selfref fl) (c_handlers cf) with
+      | None => []
+      | Some h => match eval (S (hdepth h)) h h arg (Some e) with Some (_, calls) => calls | None => [] end
+      end
+  end.
+
+Definition within_lim (g : graph) (cf : cfg) (root : cid) : list cid :=
+  map fst (bfs (S (S (length g))) g (c_lim cf) [root] [] 0).
+
+Fixpoint count (c : cid) (l : list cid) : nat :=
+  match l with [] => O | x :: r => (if (c =? x)%N then 1 else 0) + count c r end.
+
 (** does the observation equal the model with flags [fl]?
     mode 0: sequential walk, everything compared in order (visit log if [with_log]);
     mode 1: concurrent walk with a visit log: replay along it, callbacks/provider as multisets;
@@ -357,7 +375,7 @@ Definition err_matches (o : obs) (k : core) (aborted : bool) : bool :=
             for all schedules ([C12_depth_limit]); callbacks, provider, Gets compared as sets. *)
 Definition matches (fl : flags) (g : graph) (cf : cfg) (root : cid) (o : obs) (with_log : bool)
                    (fetched : option (list cid)) : bool :=
-  if c_parallel cf && with_log then
+  if c_parallel cf && with_log && negb (o_crash o) then
     match replay fl g cf root (o_vlog o) (start fl g cf root) with
     | None => false
     | Some (k, pend) =>
@@ -380,7 +398,11 @@ Definition matches (fl : flags) (g : graph) (cf : cfg) (root : cid) (o : obs) (w
            (match o_err o with
             | None => negb aborted && hset_eq (k_hcalls k) (o_hcalls o) && seteq_b (k_prov k) (o_prov o) &&
                       match fetched with Some f => seteq_b (fetched_of g cf root lg) f | None => true end
-            | Some _ => aborted
+            | Some _ =>
+                (* an aborted concurrent walk: which nodes were processed depends on the schedule *)
+                let dist := within_lim g cf root in
+                aborted && hset_sub (o_hcalls o) (flat_map (calls_for fl g cf root) dist) &&
+                subset_b (o_prov o) (if f_parallel_root_arg fl then [root] else dist)
             end)
          else
            (if with_log then list_eqb vl_eqb lg (o_vlog o) else true) &&
@@ -403,9 +425,18 @@ Definition drop_root (skip : bool) (root : cid) (l : list cid) : list cid :=
 
 Definition spec_ok (g : graph) (cf : cfg) (root : cid) (o : obs)
                    (visited : option (list cid)) (fetched : option (list cid)) : bool :=
-  let dist := map fst (bfs (S (S (length g))) g (c_lim cf) [root] [] 0) in
+  let dist := within_lim g cf root in
   let skip := c_skip_root cf in
   negb (o_crash o) &&
+  (* the provider is never asked more often for a node than the node was visited / fetched *)
+  match visited with
+  | Some v => forallb (fun c => count c (o_prov o) <=? count c v + (if skip && (c =? root)%N then 1 else 0))%nat (o_prov o)
+  | None => true
+  end &&
+  match fetched with
+  | Some f => forallb (fun c => negb (is_ok g c) || (count c (o_prov o) <=? count c f)%nat) (o_prov o)
+  | None => true
+  end &&
   forallb (fun h => match h with
                     | CMissing c => is_notfound (n_fail (lookup g c))
                     | CError c _ => negb (is_ok g c)
@@ -425,11 +456,11 @@ Definition spec_ok (g : graph) (cf : cfg) (root : cid) (o : obs)
 Definition classify (g : graph) (cf : cfg) (root : cid) (o : obs) (with_log : bool)
                     (visited fetched : option (list cid)) : verdict :=
   let sp := spec_ok g cf root o visited fetched in
-  if matches flags_off g cf root o with_log fetched then verdict_of true sp
-  else if matches (mkFlags true false) g cf root o with_log fetched then (if sp then VModelMismatch else VKnown 1)
-  else if matches (mkFlags false true) g cf root o with_log fetched then (if sp then VModelMismatch else VKnown 2)
-  else if matches (mkFlags true true) g cf root o with_log fetched then (if sp then VModelMismatch else VKnown 2)
-  else verdict_of false sp.
+  if sp then verdict_of (matches flags_off g cf root o with_log fetched) true
+  else if matches (mkFlags true false) g cf root o with_log fetched then VKnown 1
+  else if matches (mkFlags false true) g cf root o with_log fetched
+          || matches (mkFlags true true) g cf root o with_log fetched then VKnown 2
+  else VSpecFail.
 
 Definition check_case (c : case) : verdict :=
   match c with
